@@ -26,7 +26,11 @@ def main():
         subprocess.check_call(["git", "-C", "/repo", "worktree", "list"], stdout=subprocess.DEVNULL)
         shutil.copytree("/repo", repo, ignore=shutil.ignore_patterns(".git", "__pycache__", "*.so", "build", ".eggs"))
         if patch:
-            subprocess.check_call(["patch", "-p1", "-s", "-d", repo, "-i", patch])
+            pr = subprocess.run(["patch", "-p1", "-s", "-d", repo, "-i", patch], capture_output=True, text=True)
+            if pr.returncode != 0:
+                print(pr.stdout + pr.stderr)
+                print("patch returned non-zero exit status")
+                return 3
         for f, old, new in muts:
             p = os.path.join(repo, f)
             s = open(p).read()
